@@ -23,4 +23,16 @@ META = {
         "level_note": "Trusts the kernel page cache/mmap semantics for a graceful close; entries stay inside what the "
                       "controllers produce (fit a segment, non-empty encoding, monotone term/timestamp).",
     },
+    "C10": {
+        "engine": "walx",
+        "technique": "fault-injecting property testing (generated power-loss and corruption images vs list model)",
+        "design_ref": "DESIGN.md 4.1, 5 C10",
+        "level_text": "Generated crash points (which bytes changed since the last msync reached the disk, torn or not, "
+                      "which index/segment files exist) and single-region corruptions of real WAL directories, each "
+                      "reopened through the real recovery path and compared with the list model; fault enumeration by "
+                      "sampling, tens of thousands of distinct images per run.",
+        "level_note": "Durability model: msync makes the file content durable (hook reports each msync); bytes not "
+                      "rewritten keep their value; Pebble/kernel trusted. v1 format: no-panic only where the format "
+                      "cannot detect damage.",
+    },
 }
